@@ -16,7 +16,7 @@ vars == <<meta, target, install, pth, builtin, pkg>>
 
 Init == /\ meta \in {"dist-info", "egg-info"}
         /\ target \in {"module", "package", "missing"}
-        /\ install \in {"regular", "editable_in", "editable_out"}
+        /\ install \in {"regular", "editable_in", "editable_out", "editable_sibling"}   \* sibling: <base>/proj-plugins next to workspace <base>/proj
         /\ pth \in {"editable", "under", "plain", "rawdash"}
         /\ builtin \in BOOLEAN
         /\ pkg \in {"myplug", "my-plug", "my.plug"}
@@ -29,6 +29,7 @@ Spec == Init /\ [][Next]_vars
 
 ClassOf == CASE install = "regular" -> "third"
              [] install = "editable_out" -> "third"
+             [] install = "editable_sibling" -> "third"
              [] install = "editable_in" -> "plugin"
 
 Expect == [plug_fx |-> IF target = "missing" THEN "absent" ELSE ClassOf,
